@@ -741,6 +741,34 @@ theorem apply_pDel {n : Nat} {d : List Int} {i : Int} {d' : List Int} {sig : Sig
     subst h1 h2
     simp [applySig, hn]
 
+theorem apply_pSetSliceX {n : Nat} {d : List Int} {sl : Slc} {vs : List Int} {d' : List Int} {sig : Sig}
+    (h : pSetSliceX n d sl vs = .ok (d', sig)) : applySig d sig = some d' ∧ sig.name = n := by
+  unfold pSetSliceX at h
+  cases hg : getSliceX d sl with
+  | none => simp [hg] at h
+  | some old =>
+    cases hs : setSliceX d sl vs with
+    | none => simp [hg, hs] at h
+    | some d1 =>
+      simp only [hg, hs] at h
+      injection h with h; injection h with h1 h2
+      subst h1 h2
+      simp [applySig, hg, hs]
+
+theorem apply_pDelSliceX {n : Nat} {d : List Int} {sl : Slc} {d' : List Int} {sig : Sig}
+    (h : pDelSliceX n d sl = .ok (d', sig)) : applySig d sig = some d' ∧ sig.name = n := by
+  unfold pDelSliceX at h
+  cases hg : getSliceX d sl with
+  | none => simp [hg] at h
+  | some old =>
+    cases hs : delSliceX d sl with
+    | none => simp [hg, hs] at h
+    | some d1 =>
+      simp only [hg, hs] at h
+      injection h with h; injection h with h1 h2
+      subst h1 h2
+      simp [applySig, hg, hs]
+
 theorem apply_pSetSlice (n : Nat) (d : List Int) (a b : Int) (vs : List Int) :
     applySig d (pSetSlice n d a b vs).2 = some (pSetSlice n d a b vs).1 ∧ (pSetSlice n d a b vs).2.name = n := by
   simp [applySig, pSetSlice]
@@ -926,6 +954,24 @@ theorem listOp_tracks {n : Nat} {d : List Int} {op : Op} {d' : List Int} {sigs :
     injection h with h
     have := mClear_tracks n (d.length + 1) (Tracks.nil n d)
     rw [h] at this; exact this
+  | lsetSliceX m sl vs =>
+    simp only [listOp] at h
+    cases hp : pSetSliceX n d sl vs with
+    | error e => simp [hp, Except.map] at h
+    | ok res =>
+      obtain ⟨d1, sg⟩ := res
+      simp only [hp, Except.map] at h
+      injection h with h; injection h with h1 h2; subst h1 h2
+      simpa using (Tracks.nil n d).snoc (apply_pSetSliceX hp)
+  | ldelSliceX m sl =>
+    simp only [listOp] at h
+    cases hp : pDelSliceX n d sl with
+    | error e => simp [hp, Except.map] at h
+    | ok res =>
+      obtain ⟨d1, sg⟩ := res
+      simp only [hp, Except.map] at h
+      injection h with h; injection h with h1 h2; subst h1 h2
+      simpa using (Tracks.nil n d).snoc (apply_pDelSliceX hp)
   | _ => simp [listOp] at h
 
 
